@@ -233,7 +233,7 @@ func recoverCheck(d *DAG, dir, before, after, desc, at string) *driver.Fail {
 	if err != nil {
 		return &driver.Fail{Sig: "layout cannot be opened after a crash before " + site, Detail: desc + "\noci.New: " + err.Error()}
 	}
-	if bad := ValidateBlobs(dir); bad != "" {
+	if bad := ValidateBlobsStrict(dir); bad != "" {
 		return &driver.Fail{Sig: "incomplete or corrupt blob file after a crash before " + site, Detail: desc + "\n" + bad}
 	}
 	ents, err := IndexEntries(dir)
